@@ -595,9 +595,19 @@ def rule_term_sharing(ctx):
             defs.setdefault(n.targets[0].id, []).append(n.value)
     found = False
     for lp in ast.walk(f.node):
-        if not (isinstance(lp, ast.For) and isinstance(lp.iter, ast.Name) and isinstance(lp.target, ast.Name)):
+        if not isinstance(lp, ast.For):
             continue
-        P, pv = lp.iter.id, lp.target.id
+        if isinstance(lp.iter, ast.Name) and isinstance(lp.target, ast.Name):
+            P, pv = lp.iter.id, lp.target.id
+        elif isinstance(lp.iter, ast.Call) and isinstance(lp.iter.func, ast.Attribute) and lp.iter.func.attr in ("items", "keys") and isinstance(lp.iter.func.value, ast.Name) \
+                and isinstance(lp.target, (ast.Tuple, ast.Name)):
+            # for pair, <stored value> in P.items(): the pair is still the loop key; a side taken from the stored value is not the pair's
+            P = lp.iter.func.value.id
+            pv = lp.target.elts[0].id if isinstance(lp.target, ast.Tuple) and isinstance(lp.target.elts[0], ast.Name) else (lp.target.id if isinstance(lp.target, ast.Name) else None)
+            if pv is None:
+                continue
+        else:
+            continue
         pdefs = defs.get(P, [])
         if not any(isinstance(d, ast.Subscript) and "_sites_to_covering_terms" in src_of(d.value) for d in pdefs):
             continue
@@ -632,13 +642,15 @@ def rule_term_sharing(ctx):
         if side:
             r.ok("LocalHamGen.__init__[side]", sample={"side": f"{pv}.index({site_expr})"})
         else:
-            r.bad(Finding("term-sharing", "LocalHamGen.__init__", "the side of the pair the site occupies is not consulted", where=where, operand="side"))
+            r.bad(Finding("term-sharing", "LocalHamGen.__init__", f"the side of the pair the site occupies is not computed from the pair as it is keyed now (`{pv}.index({site_expr})`): a side "
+                                                                   "remembered from before the pairs were re-oriented puts the single-site term on the wrong end of every flipped bond", where=where, operand="side"))
     if not found:
         raise AnalysisError("LocalHamGen.__init__: covering-pair loop not found")
     # registration of both sites
     regs = [n for n in ast.walk(f.node) if isinstance(n, ast.Call) and isinstance(n.func, ast.Attribute) and n.func.attr == "append"
             and "_sites_to_covering_terms" in src_of(n.func.value)]
-    if len(regs) >= 2 and len({src_of(n.func.value) for n in regs}) >= 2:
+    regs += [n for n in ast.walk(f.node) if isinstance(n, ast.Assign) and isinstance(n.targets[0], ast.Subscript) and "_sites_to_covering_terms" in src_of(n.targets[0])]
+    if len(regs) >= 2 and len({src_of(n.func.value) if isinstance(n, ast.Call) else src_of(n.targets[0].value) for n in regs}) >= 2:
         r.ok("LocalHamGen.__init__[covering]")
     else:
         r.bad(Finding("term-sharing", "LocalHamGen.__init__", "both sites of a pair are not registered as covered", where=where, operand="covering"))
